@@ -140,6 +140,21 @@ CLAIMED = {
         "validated differentially on every run, not proved. The link lexeme -> rule is C18.",
    technique="Coq proof (unfolding the saturating/erroring digit folds against positional value, arithmetic by lia) + correspondence",
    ref="5 (C08)"),
+ "C15": dict(
+   text="Coq theorems (Properties_C15.v, closed under the global context) about the thread-locale state machine that "
+        "wraps every read and write (Locale.v: newlocale/uselocale/freelocale with object identities, global and "
+        "per-thread locale): for every global locale, every thread locale and every operation f, the operation runs with "
+        "radix '.', hence gives the C-locale result; afterwards the global and the thread locale are exactly what they "
+        "were, over any history; only the temporary object is freed. Tied to /repo under real locales: a comma-decimal "
+        "locale is built offline (patched copy of C.utf8, LOCPATH) and the grid global {C, comma, C.utf8} x thread {none, "
+        "comma, C.utf8} x {read_string, read, read_file+include, write, write_file, failing reads} is run on every check; "
+        "values, written text, uselocale(0) identity, setlocale(NULL) and the caller's printf radix are compared with the "
+        "model and with the C-locale run.",
+   note="Trusted: POSIX semantics of newlocale (categories outside the mask default to the POSIX locale when base is "
+        "NULL), uselocale, freelocale. newlocale failure (allocation) leaves everything unchanged and the call runs "
+        "under the caller's locale (C15_newlocale_failure); the WIN32 branch is not modelled.",
+   technique="Coq proof (state-machine case analysis) + correspondence under real locales",
+   ref="5 (C15)"),
 }
 
 REASON_PENDING = "not decided in the committed state of this round: the Coq theorem for this property is not yet in the tree, and a property is never claimed on testing alone (DESIGN.md section 11)"
